@@ -511,3 +511,19 @@ Example header_examples :
   header_from_record (fun _ => Some 1) [145; 1; 0] = Ok 1 /\
   record_payload [145; 1] = Err 2 /\ record_payload [145; 1; 5] = Ok [5].
 Proof. vm_compute. repeat split; reflexivity. Qed.
+
+(* ------------------------------------------------------------------ str slicing *)
+(* "0" ++ "é" ++ 63 zeros is 66 bytes long and byte 2 is inside the two-byte character: a parser that
+   strips a 0x prefix by `&s[..2]` / `&s[2..]` panics on it, while the code's str_to_addr returns Err *)
+Definition straddle66 : string := String "0" (of_codes ([195; 169] ++ repeat 48 63)).
+
+Lemma str_slice_prefix_refuted_lemma :
+  slen straddle66 = 66 /\ str_to_addr_prefix_tolerant straddle66 = Panic /\ str_to_addr straddle66 = Err 1.
+Proof. repeat split; vm_compute; reflexivity. Qed.
+
+Example str_slice_examples :
+  str_slice "0xab" 0 2 = Ok "0x"%string /\ str_slice "0xab" 2 4 = Ok "ab"%string /\
+  str_slice "0xab" 2 5 = Panic /\ str_slice "0xab" 3 2 = Panic /\
+  str_slice (of_codes [48; 195; 169; 48]) 0 2 = Panic /\ str_slice (of_codes [48; 195; 169; 48]) 1 3 = Ok (of_codes [195; 169]) /\
+  str_slice (of_codes [240; 159; 146; 150]) 0 3 = Panic /\ str_slice "" 0 0 = Ok ""%string.
+Proof. vm_compute. repeat split; reflexivity. Qed.
